@@ -277,8 +277,11 @@ def build_engine(contract, all_contracts, timeout_ms=10000, mutate=None):
         node0 = find_function(ast.parse(src), contract.qualname)
         seg = ast.get_source_segment(src, node0)
         if seg is None or old not in seg:
-            raise EngineError('canary anchor %r not inside %s' % (old, contract.qualname))
-        src = src.replace(seg, seg.replace(old, new, 1), 1)
+            if contract.modular or src.count(old) != 1:
+                raise EngineError('canary anchor %r not inside %s' % (old, contract.qualname))
+            src = src.replace(old, new, 1)        # callees are inlined: the mutation may sit in one of them
+        else:
+            src = src.replace(seg, seg.replace(old, new, 1), 1)
     tree = ast.parse(src)
     menv = LazyModuleEnv(eng, tree, contract.file)
     node = find_function(tree, contract.qualname)
